@@ -33,7 +33,7 @@ def run(ck):
     if not ok:
         ck.log("model build failed\n" + out[-3000:])
         ck.proof["broken"].append({"file": "Extract.v", "log": out[-2000:]})
-    okh, outh = V.build_harness(["hx-crdt"])
+    okh, outh = V.build_harness(["hx-crdt", "hx-store"])
     if not okh:
         ck.log("harness build failed\n" + outh[-3000:])
         ck.broken_correspondence("ts", "the executor no longer builds against /repo: " + outh[-1500:], [])
@@ -44,11 +44,16 @@ def run(ck):
         for f in V.corpus_files("C10") if not ck.replay else []:
             ck.correspondence("hx-ts", "ts", "hx-crdt", extra_args=["--replay", f], name="ts-corpus", nontrivial=nontrivial)
         ck.correspondence("hx-ts", "ts", "hx-crdt", nontrivial=nontrivial)
+        # the text form is what the SQLite backend stores: rows whose stamp column holds arbitrary text
+        # must be readable exactly when the text parses, an error (never a panic) otherwise
+        ck.correspondence("hx-rows", "rows", "hx-store", nontrivial=lambda c, r: "err" in r)
     ck.finish(
         level="proof",
         rule="cases = boundary grid (5 sec x 12 ms x 6 cnt x 4 node, exhaustive) through every API "
              "(new/accessors/as_u64/from_u64/to_string/from_str/archive+cast), random valid stamps, random u64 words, "
-             "order on grid and neighbour pairs, mutated/malformed text; every case is run on the extracted Coq model "
+             "order on grid and neighbour pairs, mutated/malformed text; rows of the SQLite backend whose stamp column holds "
+             "well-formed, out-of-range or junk text, read through get and iter_metadata (hx-rows: readable exactly when the "
+             "model's parse accepts the text, an error otherwise, never a panic, the storage keeps serving); every case is run on the extracted Coq model "
              "and on datacake_crdt::HLCTimestamp and compared; non-trivial = distinct (case,result) pairs other than "
              "a false comparison of two unrelated words",
         trusted_base=TRUSTED,
